@@ -63,7 +63,7 @@ def clone_shutdown_cases(rng, tier):
         for cl in rng.sample([1, 2], rng.choice([1, 2])):
             ops += [7, cl]
             for i in rng.sample(range(n), rng.randrange(0, n + 1)):
-                ops += [rng.choice([3, 10, 10]), i]      # dropped, or (a stalled one) its client drains the socket: the request completes
+                ops += [rng.choice([3, 10, 10, 11, 12]), i]      # dropped (normally, or by unwinding: a panicking handler / an unrelated panic), or (a stalled one) its client drains the socket
         for i in range(n):
             ops += [3, i]
         yield case("tok_run", [maxc], ops), ["clone-shutdown"]
